@@ -244,6 +244,16 @@ def srq_subscribe(E):
     E.prove('subscribe:initial_request_n_transmitted_exactly', I(E.getattr(f, 'initial_request_n')) == I(want))
     E.prove('subscribe:initial_request_n_positive', I(E.getattr(f, 'initial_request_n')) > 0)
     E.prove('subscribe:request_frame_is_the_first_frame_on_the_stream[re-entrant request/cancel in on_subscribe]', em[0] is reqs[0])
+    # the subscriber that was given is the one elements are delivered to (two-step: subscribe, then a frame arrives)
+    if not c.finishes():
+        f2, d2, m2 = sym_payload_frame(E, sid)
+        E.setattr(f2, 'flags_next', True)
+        E.setattr(f2, 'flags_complete', False)
+        before = len(c.signals(sub))
+        E.call(E.getattr(h, 'frame_received'), [f2])
+        after = c.signals(sub)[before:]
+        E.prove('subscribe:elements_arriving_afterwards_reach_exactly_that_subscriber',
+                len(after) >= 1 and after[0][1] == 'on_next' and payload_is(E, after[0][2][0], d2, m2))
 
 
 def _srq_action(action):
